@@ -50,8 +50,17 @@ func (propC03) Gen(seed uint64, tier string) *Case {
 	}
 	g := &Gen{r: r, cfg: cfg}
 	g.universe()
+	if r.Chance(0.08) {
+		g.paths = append(g.paths, PathSpec{Path: "C", Name: "C"}) // the cgo pseudo-package, referenced like any other
+	}
 	rec := &Recipe{Paths: g.paths}
 	rec.File = genFileSpec(g, r, true)
+	if rec.File.Path == "C" {
+		rec.File = FileSpec{Ctor: "name", Name: "main"}
+	}
+	if r.Chance(0.12) {
+		rec.Ops = append(rec.Ops, Op{K: "cgo", S: "#include <stdio.h>"})
+	}
 	np := len(g.paths)
 	cfgOp := func() Op {
 		switch r.Intn(7) {
